@@ -420,6 +420,12 @@ def extra(ctx):
             c = list(DEFAULT_CFG); c[4] = 200
             cyc.append(case_run(prof, state(exec=[N("A")], bind=binds, cfg=c), 1, 0))
     impl_only(ctx, "alias-cycles", cyc, "cyclic name bindings (A -> A, two- and three-cycles, a self-doubling list): 1 step, 50 steps and run() with a 200-step limit all return", time_limit=TIME_LIMIT_S, parallel=4)
+    # EXEC.CMD starts its command and returns (it sleeps 1 s itself): a command that runs for 4 s must not hold the step
+    cmd = [case_run(prof, state(exec=[I("EXEC.CMD"), Z(7)], int=[2, 5], name=["exec sleep 4 >/dev/null 2>&1", "-c", "sh", "A"]), 0, 1) for prof in (0, 1)]
+    impl_only(ctx, "command-not-awaited", cmd, "EXEC.CMD on `sh -c 'exec sleep 4 >/dev/null 2>&1'` (the child keeps none of the harness's pipes): the step returns within %.0f s (its own 1 s pause included), the state as the model says" % (TIME_LIMIT_S + 0.5), time_limit=TIME_LIMIT_S + 0.5, parallel=2)
+    # the cost of a GRAPH query depends on the graph, not on how many nodes the PROCESS has created so far: a two-node graph whose ids
+    # lie beyond 3 * 10^8 is queried; the same state with GRAPH.STACKDEPTH instead gives the cost of getting the counter there
+    high_id_queries(ctx)
     # the wall-clock limit also works when it is longer than a second (a run under the DEFAULT 5000 ms relies on it)
     vcheck.long_time_limit(ctx, "C15")
     # the scalar generators and CODE.RAND: bounded by the configured limits, results random
@@ -440,6 +446,26 @@ def extra(ctx):
     impl_only(ctx, "wall-clock-scaling", sc,
               "one step of every vector instruction on two 10^5-element vectors and of every CODE / EXEC instruction on a flat 20000-point item and on a 1500-deep nesting: growth bound on the observed state and wall-clock < 2 s (a quadratic body at 10^5 needs 10^10 operations)",
               time_limit=TIME_LIMIT_S)
+
+
+def high_id_queries(ctx):
+    base = 300000000
+    g = stepgen.PyGraph({base + 1: 1, base + 2: 1}, {base + 2: [(base + 1, 0x3f800000)]})
+    def timed(nm, extra_st):
+        c = "run " + case_run(1, state(exec=[I(nm)], graph=[g.wire()], **extra_st), 0, 1, world=(base + 5, ()))
+        t0 = time.time()
+        r = vcheck.run_impl([c], timeout=120)[0]
+        return time.time() - t0, r, c
+    t_base, r0, _ = timed("GRAPH.STACKDEPTH", {})
+    rows = []
+    for nm, ex in (("GRAPH.NODES", {"ivec": [[1]]}), ("GRAPH.NODE*PREDECESSORS", {"ivec": [[1]], "int": [base + 2]}), ("GRAPH.NODE*GETSTATE", {"int": [base + 1]}), ("GRAPH.PRINT", {})):
+        t, r, c = timed(nm, ex)
+        rows.append({"instruction": nm, "seconds": round(t, 2), "baseline_seconds": round(t_base, 2)})
+        ctx.evaluations += 1
+        if not r.startswith("(0 ") or t > t_base + 2.5:
+            ctx.violation("%s on a two-node graph took %.1f s where GRAPH.STACKDEPTH on the same state took %.1f s (ids beyond 3e8: the cost follows the process-wide id counter)" % (nm, t, t_base),
+                          {"property": "C15", "kind": "wall-clock", "suite": "run", "case": c.split(" ", 1)[1], "impl_output": r[:200], "seconds": t, "baseline_seconds": t_base})
+    ctx.stats["high-node-ids"] = {"cases": len(rows), "note": "GRAPH queries on a two-node graph with ids above 3 * 10^8 (one fresh process each): at most 2.5 s more than GRAPH.STACKDEPTH on the same state", "runs": rows}
 
 
 TECHNIQUE = "Coq counting model of cost and state weight: bound theorems over the whole registry (per-family automation), refutations by witnesses computed in the model, an induction over the five-step EXEC.Y cycle through the model of the run loop; supervised differential + predicate runs of the implementation (address-space / CPU / wall-clock limits), wall-clock measurement"
